@@ -5,9 +5,11 @@ import (
 
 	"github.com/glebziz/fs_db"
 	"github.com/glebziz/fs_db/internal/model"
+	"github.com/glebziz/fs_db/internal/verifhook"
 )
 
 func (r *Repo) Get(_ context.Context, id string) (model.Transaction, error) {
+	verifhook.At("reg.get")
 	if id == model.MainTxId {
 		return model.Transaction{
 			Id:       id,
